@@ -427,6 +427,18 @@ def gen_interrupt(rng):
             acts.append([t, pr, 'addres', 'r0', rng.choice([-1, 1])])
     if procs and rng.random() < 0.35:
         acts += fail_during_maint(rng, procs)
+    if procs and rng.random() < 0.3:
+        # the same part interrupted by two (or three) maintenance windows within one long cycle
+        P = rng.choice(procs)
+        for d in devs:
+            if d['n'] == P:
+                d['c'] = rng.choice([3, 4.5, 6])
+                d['alt'] = None
+        t = rng.choice([1, 2, 3.5])
+        for _ in range(rng.choice([2, 2, 3])):
+            acts.append([t, rng.choice(PRIOS), rng.choice(['maint', 'maint', 'wo']), P, rng.choice([0.5, 1])])
+            t += rng.choice([1.25, 1.5, 2])
+        acts[:] = [a[:4] if a[2] == 'wo' else a for a in acts]
     srcs = names_of(spec, 'S')
     for _ in range(rng.choice([0, 0, 1, 2])):
         acts.append([rng.choice(TIMES), rng.choice(PRIOS), 'adjust', rng.choice(srcs), rng.choice([-1, 1, 2, 3])])
